@@ -14,7 +14,9 @@ import gendefs
 LEAN_MODULE = "Kio.Props.C16"
 THEOREMS = ["Kio.C16.fields", "Kio.C16.class_vars", "Kio.C16.classes", "Kio.C16.header_rule",
             "Kio.C16.nullability_partial", "Kio.C16.primarr_nullable_witness", "Kio.C16.version_range",
-            "Kio.C16.pinned_agree"]
+            "Kio.C16.pinned_agree", "Kio.C16.coherent", "Kio.C16.bytes_follow_spec", "Kio.C16.defaults",
+            "Kio.C16.supported_names_distinct", "Kio.C16.pinned_supported",
+            "Kio.Gen.CounterCoh.module_defaults_needs_membersOk"]
 EXTRA_TRUSTED = ["the text-emission and pydantic layers of codegen are modelled at descriptor level only; "
                  "`Supported` is my delimitation of the supported subset"]
 
@@ -82,6 +84,7 @@ def run(ctx):
     nontrivial = 0
     feats = {}
     hdrs = header_defs()
+    supported = {True: 0, False: 0}
     for s in range(nsets):
         defs = defgen.gen_set(rng, per, start_serial=s * per)
         res = gendefs.run_codegen(hdrs + defs, seed=ctx.seed + s)
@@ -94,6 +97,13 @@ def run(ctx):
         gen_r = driver.run_parallel(["gen all " + t for t in toks])
         spec_r = driver.run_parallel(["defspec all " + t for t in toks])
         chk_r = driver.run_parallel(["gencheck " + t for t in toks])
+        for d, sr in zip(defs, driver.run_parallel(["supported " + t for t in toks])):
+            # is the definition in the subset the universal theorems speak about (`Gen.Supported`)?
+            for part in sr.split()[1:]:
+                v, sup, okm, wf, da = part.split(":")
+                supported[sup == "true"] += 1
+                if sup == "true" and not (okm == "true" and wf == "true" and da == "true"):
+                    ctx.broken.append(f"theorems coherent/defaults contradicted in the model on {d['name']} {v}: {part}")
         for d, cr in zip(defs, chk_r):
             for part in cr.split()[1:]:
                 v, agrees, wf = part.split(":")
@@ -202,6 +212,7 @@ def run(ctx):
         "evaluations": ncases, "distinct_nontrivial": nontrivial,
         "rule": "case = (generated definition, version); the real generator is run on the set in a scratch tree, its "
                 "modules imported in a subprocess; non-trivial iff ≥ 3 fields and at least one of nullable/tagged/nested/default",
+        "pairs_in_supported_subset": supported[True], "pairs_outside_supported_subset": supported[False],
         "generated_classes_not_coherent_in_model": len(incoherent), "instances_encoded": ninst[0], "definition_sets": nsets, "definitions": nsets * per, "feature_counts": feats,
         "disagreements": len(disagreements), "property_failures_on_code": len(fails), "known_finding_cases": len(known),
         "samples": [],
